@@ -158,6 +158,13 @@ func (fx *FuncExec) run() {
 	}
 	if c != nil && c.HasModifies {
 		fx.modSet = fx.modTerms(c, func() *SpecEnv { return fx.specEnv(fx.entry, fx.entry, fx.bodyPos(), "modifies") })
+		// struct values passed by value are the callee's own copies
+		for i := 0; i < sig.Params().Len(); i++ {
+			pv := sig.Params().At(i)
+			if si := fx.structValInfo(pv.Type()); si != nil && pv.Name() != "" && pv.Name() != "_" {
+				fx.modSet[si.Sort] = append(fx.modSet[si.Sort], fx.entry.vars[varKey(pv)])
+			}
+		}
 	}
 	// vacuity check: the entry assumptions must be satisfiable
 	vo := fx.oblige(st, "vacuity", "entry-satisfiable", "true", "requires are satisfiable", fi.Body.Pos())
